@@ -131,6 +131,9 @@ class Screen608:
         # the window stays anchored at row 15 in this model (the reader documents that it forces the base row)
         self.col = col
         self._probe("pac_in_rollup")
+        if 15 in self.disp and any(c is not None for c in self.disp[15]):
+          self._probe("pac_on_reused_row")
+          self.reused.add(id(self.disp[15]))
       else:
         if rk in self._mem() and any(c is not None for c in self._mem()[rk]):
           self._probe("pac_on_reused_row")
